@@ -1,7 +1,7 @@
 """C09 — projected coordinates agree with proj4js and with independent reference formulas.
 
 pregen (tie T1): harness/cmd/c09/extract (go/ast + go/types, source text only) regenerates
-lean/GeomV/C09/Gen/{GoCommon,GoProj,Tables}.lean from the CURRENT proj/common.go, the closures of the projection files, datum.go, the four table files and
+lean/GeomV/C09/Gen/{GoCommon,GoProj,Tables}.lean from the CURRENT proj/common.go, the closures AND constructor bodies of the projection files, datum.go, the four table files and
 the vendored proj4js constants, so the theorems are re-checked against what the code says now.
 If `node` is on PATH the vendored JavaScript itself is run on a sample to validate the Lean
 transliteration `Js.lean` (recorded in the evidence; the check does not depend on node).
@@ -118,7 +118,7 @@ def post(check, pairs, stats):
 CFG = {
     "id": "C09",
     "level": "proof",
-    "lean_modules": ["GeomV.C09.Proofs", "GeomV.C09.ProofsProj", "GeomV.C09.ProofsDatum", "GeomV.C09.ProofsPipeline", "GeomV.C09.ProofsInit"],
+    "lean_modules": ["GeomV.C09.Proofs", "GeomV.C09.ProofsProj", "GeomV.C09.ProofsDatum", "GeomV.C09.ProofsPipeline", "GeomV.C09.ProofsInit", "GeomV.C09.ProofsInit2"],
     "exe": "geomv_c09",
     "go_cmd": "c09",
     "stages": ["go:gen", "go:impl", "lean:judge"],
@@ -142,7 +142,11 @@ CFG = {
         # (A) transform.go closure = transform.js, given stage-wise equality
         "go_pipeline_core_eq_js", "twoHop_same", "go_pipeline_eq_js", "stage_of", "js_forward_keeps_z", "js_inverse_keeps_z",
         # (A) constructors: constants computed by the Go constructor = those of the proj4js init
-        "go_init_tmerc_eq_js", "go_tmerc_fwd_eq_js'", "go_tmerc_inv_eq_js'", "go_init_utm_eq_js", "go_utm_fwd_eq_js'",
+        # (Go side = the REGENERATED constructor bodies Gen.Go.<Ctor>_init)
+        "go_init_tmerc_eq_js", "go_tmerc_fwd_eq_js'", "go_tmerc_inv_eq_js'", "go_init_utm_eq_js", "go_utm_fwd_eq_js'", "go_utm_inv_eq_js'",
+        "go_merc_init_val", "js_merc_init_val", "go_init_merc_eq_js", "go_merc_fwd_eq_js'", "go_merc_inv_eq_js'",
+        # known finding: lcc at the pole, proved on the regenerated closure
+        "lcc_pole_is_moved",
         # (B) Snyder's closed forms
         "snyder_mdist_eq", "snyder_m_eq", "snyder_t_eq", "snyder_q_eq",
         "snyder_merc_eq", "snyder_lcc_eq", "snyder_aea_eq", "snyder_eqdc_eq",
@@ -152,7 +156,7 @@ CFG = {
     "trusted_base": [
         "Lean 4.33.0 kernel; axioms of every theorem printed by #print axioms must be within {propext, Classical.choice, Quot.sound}",
         "T1 extractor harness/cmd/c09/extract (go/ast + go/types constant folding; regex over the proj4js object literals): "
-        "regenerates Gen/GoCommon.lean, Gen/GoProj.lean (closures of merc/lcc/aea/eqdc/tmerc/krovak, aeaPhi1z, datum.go methods) and Gen/Tables.lean from the current sources on every run",
+        "regenerates Gen/GoCommon.lean, Gen/GoProj.lean (closures of merc/lcc/aea/eqdc/tmerc/krovak, the constructor bodies of Merc/LCC/AEA/EqdC/TMerc/UTM/Krovak, aeaPhi1z, datum.go methods) and Gen/Tables.lean from the current sources on every run",
         "hand models Model.lean (Go port) and Js.lean (proj4js) are tied by the correspondence run: Go vs Model to 1e-6 m, "
         "Go vs Js to 0.1 mm, Go vs Spec.Ref to 5 mm on every generated case; Js.lean is additionally cross-checked against the "
         "vendored JavaScript run by node when node is present",
